@@ -57,6 +57,7 @@ def kind_of(o):
     if type(o) is collections.OrderedDict: return 1
     if type(o) is types.MappingProxyType: return 2
     if type(o) is ROMapping: return 3
+    if isinstance(o, dict): return 8          # some other dict subclass
     return 9
 
 def tag(o):
@@ -152,7 +153,7 @@ def impl(c):
             r = su.mask_dict_password({k: 0}, 'M')
         except Exception as e:
             return 'EXN:' + type(e).__name__
-        if type(r) is dict and list(r.keys()) == [k]:
+        if isinstance(r, dict) and list(r.keys()) == [k]:
             if r[k] == 'M' and type(r[k]) is str: return 'True'
             if r[k] == 0 and type(r[k]) is int: return 'False'
         return 'OTHER:' + repr(r)[:80]
@@ -180,7 +181,7 @@ def _secret_of(c):
 
 def encode(c):
     if c['op'] == 'key':
-        return ['secret_key', c['k']]
+        return ['key', c['k']]
     su = _su()
     t = canon(build(c['d']))
     secret = _secret_of(c)
@@ -240,7 +241,8 @@ def key_verdict(k):
     if k.isascii(): return a
     b = _contains_ci(k, str.casefold, keys)
     c = any(sk in k.lower() for sk in keys)
-    return a if (a == b == c) else None
+    d = any(sk in k.casefold() for sk in keys)
+    return a if (a == b == c == d) else None
 
 def expected(n, secret, mp):
     """the result the property prescribes for mapping node n: dict key -> list of acceptable canonical trees"""
@@ -267,7 +269,8 @@ def _match(res, exp, path):
     if exp[0] != 'X':
         return None if res == exp else '%s: got %s, expected %s' % (path, ser(res)[:120], ser(exp)[:120])
     if res[0] != 'M': return '%s: a mapping was not rebuilt as a mapping: %s' % (path, ser(res)[:80])
-    if res[1] != 0: return '%s: result container is not a plain dict (kind %d)' % (path, res[1])
+    # "a new dict": any dict instance satisfies the text (the model, like the code, says exactly dict)
+    if res[1] not in (0, 1, 8): return '%s: result container is not a dict (kind %d)' % (path, res[1])
     want = exp[1]
     got = {}
     for k, v in res[2]:
@@ -304,9 +307,11 @@ def oracle(c, io):
         return None      # mask_password itself raises on a value of this case: outside the contract, no verdict
     if out.startswith('EXN:') or out.startswith('NONMAP:'):
         return 'mapping argument gives %s' % out[:80]
-    if aliasf != 'ALIAS:0': return 'a mapping inside the result is an object of the argument (not a new dict)'
     res, p = unser(out)
-    return _match(res, exp, 'result')
+    msg = _match(res, exp, 'result')
+    if msg: return msg
+    if aliasf != 'ALIAS:0': return 'a mapping inside the result is an object of the argument (not a new dict)'
+    return None
 
 def classify(c, io):
     if c['op'] == 'key': return 'key:' + io[:5]
@@ -498,7 +503,7 @@ def boundary_cases(rng, keys):
 def gen_cases(rng, tier):
     keys = all_keys()
     yield from boundary_cases(rng, keys)
-    n = 2500 if tier == 'quick' else 90000
+    n = 2500 if tier == "quick" else 150000
     for i in range(n):
         r = rng.random()
         secret = None if rng.random() < 0.12 else rng.choice(SECRETS)
